@@ -1089,3 +1089,68 @@ def enum1_tag_decoders(P, R, L, rule="ENUM-1"):
                 "each arm `v => Variant` names the variant whose discriminant is v; every variant has an arm",
                 "; ".join(bad) or ("variants without an arm: %s" % missing if missing else "%d arms" % len(arms)))
     R.floor(rule, "tag decoders examined", n, 4)
+
+
+# ------------------------------------------------------------------------------------------- PROG-2 a rotation makes progress
+def prog2_rotation_needs_a_non_empty_memtable(P, R, L, rule="PROG-2"):
+    """DB::make_room_for_write loops until the write may proceed.  The rotation branch (memtable_ptr.swap) installs an EMPTY
+    memtable and goes round again, so the loop only makes progress if an empty memtable is then accepted: unless the caller
+    forced a flush, the rotation is reached only over the FALSE edge of `memtable.is_empty()`.  (The fixed overhead of an
+    empty skip list can exceed a very small max_memtable_size: without that edge the first write rotates for ever - D23.)"""
+    fn = "db::DB::make_room_for_write"
+    b = P.body(fn)
+    if b is None:
+        return R.missing_anchor(rule, fn)
+    R.analysed(b)
+    swaps = [c for c in b.calls() if not b.is_cleanup(c.bb) and (c.name or "").startswith("arc_swap::ArcSwapAny") and (c.name or "").endswith("::swap")]
+    non_empty, forced = [], []
+    for c in b.calls():
+        if not b.is_cleanup(c.bb) and (c.name or "").endswith("MemTable::is_empty"):
+            for t in bool_tests(b, c.dest["l"]):
+                non_empty += [(t.bb, x) for x in t.err]
+    # the force flag is the bool parameter that the function itself clears after the rotation
+    flags = [l for l in range(1, b.nargs + 1) if b.local_ty(l) == "bool"]
+    for bb in range(b.n):
+        t = b.term(bb)
+        if b.is_cleanup(bb) or t["k"] != "switch" or t["discr"].get("k") not in ("copy", "move"):
+            continue
+        if any(r in flags for r in roots(b, t["discr"])):
+            zero = switch_target(t, 0)
+            forced += [(bb, x) for x in b.succ(bb) if x != zero and not b.is_cleanup(x)]
+    bad = [c.line for c in swaps if not b.must_pass(c.bb, through_edges=non_empty + forced)]
+    R.check(rule, fn + "|an-unforced-rotation-leaves-a-non-empty-memtable-behind", bool(swaps) and not bad, where(b),
+            "the memtable is rotated only when a flush was forced or behind `!memtable.is_empty()` (an empty memtable always has room)",
+            "rotation at line(s) %s reachable without either edge" % bad if bad else "rotations %d, non-empty edges %d, forced edges %d" % (len(swaps), len(non_empty), len(forced)))
+    R.floor(rule, "memtable rotations in make_room_for_write", len(swaps), 1)
+
+
+# ------------------------------------------------------------------------------------------- ORD-12b closing never depends on being the only owner of the worker
+def ord12b_close_does_not_unwrap_shared_ownership(P, R, L, rule="ORD-12"):
+    """Drop for DB must terminate and join the compaction thread whoever else still holds the worker: client iterators own a
+    clone of the Arc<CompactionWorker> (read-triggered compactions) and may outlive the handle.  So on every path to the
+    return stop_worker_thread is called, and nothing before it unwraps a value that is only Some / Ok while the reference
+    count is one (Arc::get_mut, Arc::try_unwrap).  (D10: `Arc::get_mut(..).unwrap()` panicked in Drop while an iterator was
+    alive - after the file lock was released, with the thread neither stopped nor joined.)"""
+    fn = "<db::DB as std::ops::Drop>::drop"
+    b = P.body(fn)
+    if b is None:
+        return R.missing_anchor(rule, fn)
+    R.analysed(b)
+    stops = [c for c in sites_reaching_stop(P, b)]
+    every = bool(stops) and all(b.must_pass(r, through_nodes=[c.bb for c in stops]) for r in b.return_blocks())
+    share = ("std::sync::Arc::get_mut", "std::sync::Arc::try_unwrap", "std::sync::Arc::into_inner", "std::rc::Rc::get_mut", "std::rc::Rc::try_unwrap")
+    bad = []
+    for c in b.calls():
+        if b.is_cleanup(c.bb) or not c.args:
+            continue
+        if strip_generics(c.name or "").rsplit("::", 1)[-1] in ("unwrap", "expect", "unwrap_unchecked") and \
+                any(o.kind == "call" and strip_generics(o.name or "") in share for o in origins(b, c.args[0], transparent=())):
+            bad.append("line %s unwraps %s" % (c.line, sorted({strip_generics(o.name) for o in origins(b, c.args[0], transparent=()) if o.kind == "call"})))
+    R.check(rule, fn + "|the-worker-is-stopped-whoever-else-holds-it", every and not bad, where(b),
+            "every path through Drop calls stop_worker_thread, and no unwrap of a sole-ownership test (Arc::get_mut / try_unwrap) can panic before it",
+            "; ".join(bad) or "stop sites %d, on every path: %s" % (len(stops), every))
+
+
+def sites_reaching_stop(P, b):
+    from ..rules import sites_reaching
+    return [c for c in sites_reaching(P, b, ["compaction::worker::CompactionWorker::stop_worker_thread"]) if not b.is_cleanup(c.bb)]
